@@ -452,3 +452,60 @@ Proof.
       destruct (parse_form_comma _ _ _ _ Hc L H) as (-> & ta & tj & tf & Ha & Hj & Hf & Hv & _).
       rewrite Ha. intros [= <-]. apply Hv.
 Qed.
+
+(* the two totality facts other properties (C10) take as a premise about these models *)
+Lemma person_of_string_total s : person_of_string s <> Crash /\ person_of_string s <> OutOfFuel.
+Proof. apply parse_name_total_pf. Qed.
+
+Lemma split_name_list_total s : split_name_list s <> Crash /\ split_name_list s <> OutOfFuel.
+Proof.
+  unfold split_name_list. destruct (split_gen_good sep_and s true false) as [r ->]. split; discriminate.
+Qed.
+
+(* ------------------------------------------------------------------------------------ *)
+(* conservation at the level of characters: nothing but separators is dropped *)
+Lemma content_keep s : content s = keep name_sep s.
+Proof. reflexivity. Qed.
+
+Lemma name_sep_space c : is_space c = true -> name_sep c = true.
+Proof. unfold name_sep. intros ->. reflexivity. Qed.
+
+Lemma content_space_tokens s ts : split_tex_space s = Ok ts -> content (concat ts) = content s.
+Proof. rewrite !content_keep. apply split_space_keep; [exact name_sep_space|reflexivity|reflexivity]. Qed.
+
+Lemma content_comma_parts s ts : split_tex_comma s = Ok ts -> content (concat ts) = content s.
+Proof. rewrite !content_keep. apply split_comma_keep; [exact name_sep_space|reflexivity]. Qed.
+
+Lemma content_app a b : content (a ++ b) = content a ++ content b.
+Proof. apply filter_app. Qed.
+
+Lemma content_strip s : content (strip s) = content s.
+Proof. rewrite !content_keep. apply keep_strip. exact name_sep_space. Qed.
+
+Lemma content_join_space l : content (join [c_space] l) = content (concat l).
+Proof.
+  induction l as [|x [|y r] IH]; [reflexivity|cbn; now rewrite app_nil_r|].
+  change (join [c_space] (x :: y :: r)) with (x ++ [c_space] ++ join [c_space] (y :: r)).
+  cbn [concat]. rewrite !content_app, IH. cbn [concat]. rewrite !content_app. reflexivity.
+Qed.
+
+Lemma concat_app_str (a b : list str) : concat (a ++ b) = concat a ++ concat b.
+Proof. apply concat_app. Qed.
+
+Lemma chars_preserved_pf s parts p rep :
+  split_tex_comma (strip s) = Ok parts -> person_of_string s = Ok (p, rep) ->
+  (length parts <= 1 -> content (concat (p_first p ++ p_middle p ++ p_prelast p ++ p_last p)) = content s) /\
+  (2 <= length parts ->
+     content (concat ((p_prelast p ++ p_last p) ++ p_lineage p ++ (p_first p ++ p_middle p))) = content s).
+Proof.
+  intros Hc H. destruct (tokens_preserved_pf _ _ _ _ Hc H) as [H0 H2]. split.
+  - intros Hl. destruct (H0 Hl) as (ts & Hts & <- & _). rewrite (content_space_tokens _ _ Hts). apply content_strip.
+  - intros Hl. destruct (H2 Hl) as (ta & tj & tf & Ha & Hj & Hf & <- & <- & <- & _).
+    rewrite !concat_app_str, !content_app.
+    rewrite (content_space_tokens _ _ Ha), (content_space_tokens _ _ Hj), (content_space_tokens _ _ Hf).
+    rewrite <- (content_strip s), <- (content_comma_parts _ _ Hc).
+    destruct parts as [|a [|b [|c rest]]]; cbn [length] in Hl; try lia.
+    + unfold jr_part, first_part. cbn [length Nat.eqb nth concat]. now rewrite !content_app, app_nil_r.
+    + unfold jr_part, first_part. change (Nat.eqb (length (a :: b :: c :: rest)) 2) with false. cbv iota.
+      cbn [nth skipn]. rewrite content_join_space. cbn [concat]. now rewrite !content_app.
+Qed.
